@@ -412,3 +412,199 @@ func freshSlice(c *Check, a *Anchors, fb *FuncBody, e ast.Expr, depth int) (bool
 }
 
 var _ = token.NoPos
+
+// reflectFieldsSettable (C16): reflect.Value.Set panics on a value reached through an unexported struct field.
+func reflectFieldsSettable(c *Check, a *Anchors) {
+	c.Rule("reflect-fields-settable", "wherever Task's own code walks the fields of an arbitrary struct by reflection and writes into them (the copier behind templater.Replace*), the walk is guarded by a settability test (reflect.Value.CanSet / StructField.IsExported / PkgPath) in the same struct case: variable values decoded from YAML include structs with unexported fields (a timestamp scalar decodes to time.Time), and reflect.Value.Set on such a field panics")
+	n := 0
+	for _, fb := range c.P.Bodies() {
+		if !strings.HasPrefix(fb.Pkg.PkgPath, Mod) || bceSkipPkgs[fb.Pkg.PkgPath] {
+			continue
+		}
+		info := fb.Info()
+		inspectBody(fb.Body, func(nd ast.Node) bool {
+			cc, ok := nd.(*ast.CaseClause)
+			if !ok {
+				return true
+			}
+			isStruct := false
+			for _, e := range cc.List {
+				if exprStr(e) == "reflect.Struct" {
+					isStruct = true
+				}
+			}
+			if !isStruct {
+				return true
+			}
+			walks, writes, guarded := false, false, false
+			for _, st := range cc.Body {
+				ast.Inspect(st, func(m ast.Node) bool {
+					call, ok := m.(*ast.CallExpr)
+					if !ok {
+						return true
+					}
+					sel, ok := ast.Unparen(call.Fun).(*ast.SelectorExpr)
+					if !ok {
+						// a recursive call through a func variable that receives a Field(i) value writes into it
+						for _, arg := range call.Args {
+							if ac, ok := ast.Unparen(arg).(*ast.CallExpr); ok {
+								if as, ok := ast.Unparen(ac.Fun).(*ast.SelectorExpr); ok && as.Sel.Name == "Field" && isReflectValue(info, as.X) {
+									writes = true
+								}
+							}
+						}
+						return true
+					}
+					if !isReflectValue(info, sel.X) && sel.Sel.Name != "IsExported" {
+						return true
+					}
+					switch sel.Sel.Name {
+					case "Field", "FieldByName", "FieldByIndex":
+						walks = true
+					case "Set", "SetString", "SetInt", "SetBool":
+						writes = true
+					case "CanSet", "IsExported", "CanInterface":
+						guarded = true
+					}
+					return true
+				})
+			}
+			if !walks || !writes {
+				return true
+			}
+			n++
+			c.Fn(fb.Root())
+			c.Decide(guarded, "reflect-fields-settable", "case reflect.Struct@"+fnDisplay(fb.Root()), cc.Pos(), "the field walk tests settability",
+				"the struct case walks every field of an arbitrary struct and writes into the copy without testing CanSet / IsExported: a variable whose YAML value is a timestamp (time.Time has unexported fields) makes reflect.Value.Set panic")
+			return true
+		})
+	}
+	c.Floor("reflect-fields-settable", n, 1)
+}
+
+func isReflectValue(info *types.Info, e ast.Expr) bool {
+	tv, ok := info.Types[e]
+	if !ok {
+		return false
+	}
+	return types.TypeString(tv.Type, nil) == "reflect.Value"
+}
+
+// errorsNotSwallowed (C16): a branch that has just established `err != nil` does not report success.
+var swallowReviewed = map[string]string{
+	"semver.NewVersion@task.(*Executor).doVersionChecks": "an unparsable build version (\"devel\") disables the upper-bound schema check by design; the Taskfile itself was already validated",
+	"fmt.Fprint@internal/output.(*prefixWriter).writeLine": "a failed write of the prefix bracket to the terminal drops the line; nothing the caller could do differs from the success case and the payload write's own error is still returned",
+}
+
+func errorsNotSwallowed(c *Check, a *Anchors) {
+	c.Rule("error-branch-not-success", "in Task's own code a branch guarded by `err != nil` (err of type error) never returns a nil error from a function whose last result is error — an established failure is not reported as success (exit 0 with nothing printed); the deliberate exceptions are an explicit table with one reason each")
+	n, checked := 0, 0
+	seen := map[string]bool{}
+	ord := map[string]int{}
+	for _, fb := range c.P.Bodies() {
+		if !strings.HasPrefix(fb.Pkg.PkgPath, Mod) || bceSkipPkgs[fb.Pkg.PkgPath] {
+			continue
+		}
+		if fb.Type.Results == nil || fb.Type.Results.NumFields() == 0 {
+			continue
+		}
+		info := fb.Info()
+		last := fb.Type.Results.List[len(fb.Type.Results.List)-1]
+		if tv, ok := info.Types[last.Type]; !ok || !isErrorType(tv.Type) {
+			continue
+		}
+		pm := parentMap(fb.Body)
+		inspectBody(fb.Body, func(nd ast.Node) bool {
+			ifs, ok := nd.(*ast.IfStmt)
+			if !ok {
+				return true
+			}
+			be, ok := ast.Unparen(ifs.Cond).(*ast.BinaryExpr)
+			if !ok || be.Op != token.NEQ || !isNilLit(info, be.Y) {
+				return true
+			}
+			v := varOf(info, be.X)
+			if v == nil || !isErrorType(v.Type()) {
+				return true
+			}
+			checked++
+			// where does err come from: the if's init or the nearest preceding assignment in the enclosing block
+			src := ""
+			find := func(st ast.Stmt) {
+				if as, ok := st.(*ast.AssignStmt); ok && len(as.Rhs) == 1 {
+					for _, l := range as.Lhs {
+						if varOf(info, l) == v {
+							if call, ok := ast.Unparen(as.Rhs[0]).(*ast.CallExpr); ok {
+								src = calleeName(callee(info, call))
+							} else {
+								src = exprStr(as.Rhs[0])
+							}
+						}
+					}
+				}
+			}
+			if ifs.Init != nil {
+				find(ifs.Init)
+			}
+			if src == "" {
+				if blk, ok := pm[ifs].(*ast.BlockStmt); ok {
+					for _, st := range blk.List {
+						if st == ast.Stmt(ifs) {
+							break
+						}
+						find(st)
+					}
+				}
+			}
+			inspectBody(ifs.Body, func(m ast.Node) bool {
+				r, ok := m.(*ast.ReturnStmt)
+				if !ok {
+					return true
+				}
+				if inner, ok := m.(*ast.IfStmt); ok && inner != ifs {
+					return true
+				}
+				res := errResult(r)
+				if res == nil || !isNilLit(info, res) {
+					return true
+				}
+				// `return false, nil` / `return "", nil` carry an answer ("not up to date", "no value"); only a return whose
+				// every result is nil tells the caller nothing but "succeeded"
+				for _, other := range r.Results {
+					if !isNilLit(info, other) {
+						return true
+					}
+				}
+				// only returns directly governed by this test (not under a nested condition that may re-classify the error)
+				direct := true
+				for p := pm[r]; p != nil && p != ast.Node(ifs.Body); p = pm[p] {
+					switch p.(type) {
+					case *ast.IfStmt, *ast.CaseClause, *ast.SwitchStmt, *ast.TypeSwitchStmt:
+						direct = false
+					}
+				}
+				if !direct {
+					return true
+				}
+				n++
+				key := src + "@" + fnDisplay(fb.Root())
+				c.Fn(fb.Root())
+				if reason, ok := swallowReviewed[key]; ok {
+					seen[key] = true
+					c.OK("error-branch-not-success", ordinal(ord, key), r.Pos(), "reviewed exception: "+reason)
+					return true
+				}
+				c.Bad("error-branch-not-success", ordinal(ord, key), r.Pos(), fmt.Sprintf("the error of %s is known to be non-nil here and the function returns a nil error: the failure is reported to the caller as success (with --summary / listing this is exit 0 and nothing printed)", src))
+				return true
+			})
+			return true
+		})
+	}
+	c.Extra["error_tests_inspected"] = checked
+	c.Floor("error-branch-not-success", checked, 150)
+	_ = seen
+}
+
+func isErrorType(t types.Type) bool {
+	return t != nil && types.Identical(t, types.Universe.Lookup("error").Type())
+}
